@@ -593,10 +593,9 @@ Theorem ratio_minmax_scale s a b :
 Proof.
   intros Na Nb L1 L2 D1 D2. unfold ratio_minmax, fmin2, fmax2. rewrite Na, Nb, L1, L2.
   destruct (isnan a) eqn:Ea.
-  { rewrite Ea in Na. apply isnan_eq_nan in Ea. apply isnan_eq_nan in Na. rewrite Ea, Na. reflexivity. }
+  { apply isnan_eq_nan in Ea. apply isnan_eq_nan in Na. rewrite Na, Ea. reflexivity. }
   destruct (isnan b) eqn:Eb.
-  { rewrite Eb in Nb. apply isnan_eq_nan in Eb. apply isnan_eq_nan in Nb. rewrite Eb, Nb. reflexivity. }
-  rewrite Ea in Na. rewrite Eb in Nb.
+  { apply isnan_eq_nan in Eb. apply isnan_eq_nan in Nb. rewrite Nb, Eb. reflexivity. }
   destruct (b <? a)%float eqn:E1; destruct (a <? b)%float eqn:E2.
   - apply ltb_asym in E1. rewrite E1 in E2. discriminate E2.
   - exact D2.
@@ -650,3 +649,23 @@ Proof.
   destruct (Nat.eqb c 0 || Nat.eqb c (S n - 1)); [reflexivity|].
   apply amp_cons_at_scale; assumption.
 Qed.
+
+(* ------------------------------------------------------------------------- *)
+(* S8: the labels do not look at the signal                                  *)
+(* ------------------------------------------------------------------------- *)
+
+(* labels_cycles is a function of the thresholds and the four feature columns only; S5/S6 give
+   identical columns for the scaled signal, hence identical labels *)
+Corollary labels_cycles_scale t n len af' ac' pc' mo' af ac pc mo :
+  af' = af -> ac' = ac -> pc' = pc -> mo' = mo ->
+  labels_cycles t n (map (fun i => {| f_af := fnth af' i; f_ac := fnth ac' i; f_pc := fnth pc' i; f_mo := fnth mo' i |})
+                         (seq 0 len)) =
+  labels_cycles t n (map (fun i => {| f_af := fnth af i; f_ac := fnth ac i; f_pc := fnth pc i; f_mo := fnth mo i |})
+                         (seq 0 len)).
+Proof. intros -> -> -> ->. reflexivity. Qed.
+
+(* labels_amp is a function of the external detector mask and the sample rows only *)
+Corollary labels_amp_scale t n mask rows' rows :
+  rows' = rows ->
+  labels_amp t n (map (burst_fraction_row mask) rows') = labels_amp t n (map (burst_fraction_row mask) rows).
+Proof. intros ->. reflexivity. Qed.
